@@ -350,10 +350,14 @@ SOLVERS = {
 MESH_ROLE = {".node": "MeshNode", ".pbc": "MeshPbc", ".ele": "MeshEle", ".edge": "MeshEdge"}
 
 
-def element_guards(body, fn, cond, errs):
+def element_guards(body, fn, cond, errs, bool_fn=False):
     """Content requirements tested while elements are read (body of an element-reading function).
     Returns function-level steps.  A requirement whose data IS used (labellist[elm.lbl]) but whose
-    guard is not found is reported as an unchecked step."""
+    guard is not found is reported as an unchecked step.  bool_fn: the reader returns bool (false on
+    failure) instead of a LoadMeshErr code."""
+    def is_failure_value(g):
+        t = truthiness(g, errs)
+        return (t is False) if bool_fn else (t is True)
     steps = []
     uses = re.search(r"labellist\s*\[\s*elm\.lbl\s*\]", body)
     if not uses:
@@ -366,7 +370,7 @@ def element_guards(body, fn, cond, errs):
         if r and r[0] == "return" and m.start() < uses.start():
             g = r[1]
             break
-    if g is not None and truthiness(g, errs) is not False:
+    if g is not None and is_failure_value(g):
         steps.append(dict(step="%s:elm.lbl<0" % fn, role="Regions", cond=cond, inner="fail", ret=g,
                           how="if (elm.lbl<0) -> return %s" % g))
     else:
@@ -383,7 +387,7 @@ def element_guards(body, fn, cond, errs):
             if r and r[0] == "return":
                 g = r[1]
                 break
-    if g is not None and truthiness(g, errs) is not False:
+    if g is not None and is_failure_value(g):
         steps.append(dict(step="%s:elm.lbl>=labels" % fn, role="Labels", cond=cond, inner="fail", ret=g,
                           how="label range test -> return %s" % g))
     else:
@@ -447,7 +451,7 @@ def solver_steps(src, p):
         le = func_body(txt, r"FSolver::LoadMeshElementsFromSolution", "FSolver::LoadMeshElementsFromSolution")
         if not re.search(r"\bLoadMeshElementsFromSolution\s*\(", lps):
             raise TranslateError("anchor not found: loadPreviousSolution -> LoadMeshElementsFromSolution")
-        for g in element_guards(le, "LoadMeshElementsFromSolution", "IfPrev", errs):
+        for g in element_guards(le, "LoadMeshElementsFromSolution", "IfPrev", errs, bool_fn=True):
             # the reader's result is not looked at by loadPreviousSolution: a guard would have to be propagated
             hh = handling(lps, r"\bLoadMeshElementsFromSolution\s*\(", "false", "loadPreviousSolution -> LoadMeshElementsFromSolution")
             inner = "unchecked"
